@@ -175,3 +175,233 @@ PROPERTIES["C20"] = {
     "assumptions": ["the base token stream fed to the indentation model is the one the generated ANTLR lexer "
                     "produces (modelled, not verified)"],
 }
+
+
+# ------------------------------------------------------------------ runner families
+def _obs_list(res):
+    """res = (res (load ok) (obs...) (finals...) [notes]) -> list of observations, or a marker."""
+    if tag(res) != "res" or len(res) < 3:
+        return None
+    return res[2]
+
+
+def _strip_line(parts, keep_tags, keep_attrs):
+    # parts = [text, tags, attrs]
+    out = [parts[0]]
+    if keep_tags:
+        out.append(parts[1])
+    if keep_attrs:
+        out.append(parts[2])
+    return out
+
+
+def obs_view(o, keep_tags=False, keep_attrs=False, keep_disabled=True):
+    t = tag(o)
+    if t == "line":
+        return ["line", o[1]] + _strip_line(o[2:5], keep_tags, keep_attrs)
+    if t == "opts":
+        return ["opts", o[1], [([x[0]] if keep_disabled else []) + _strip_line(x[1:4], keep_tags, keep_attrs) for x in o[2]]]
+    return o
+
+
+def runner_projection(view, with_log=False, with_slog=False, note_ast=True):
+    def proj(line):
+        res = sexp.parse(line)
+        if tag(res) != "res":
+            return line
+        if len(res) < 3:
+            return sexp.dump(res[:2])
+        out = [[view(o) for o in res[2]]]
+        if with_log or with_slog:
+            for r in res[3]:
+                out.append([r[1] if with_log else [], r[2] if with_slog else []])
+        if note_ast and len(res) > 4:
+            out.append(["ast-mismatch"])
+        return sexp.dump(out)
+    return proj
+
+
+def first_diff(a, b):
+    for i, (x, y) in enumerate(zip(a, b)):
+        if x != y:
+            return i
+    return min(len(a), len(b)) if len(a) != len(b) else None
+
+
+def runner_oracle(fam_name, what):
+    """The model provably follows the specification (Props/<id>.v), and the specification fixes the
+    projected observables uniquely; an implementation whose projected observables differ therefore
+    violates the property on this input."""
+    def oracle(case, obs, exp):
+        pe = sexp.parse(project(fam_name, sexp.dump(exp)))
+        po = sexp.parse(project(fam_name, sexp.dump(obs)))
+        if pe == po:
+            return "ok", "observables agree with the specification"
+        if len(obs) > 4 and tag(obs[4]) == "ast-mismatch":
+            return "violation", "the implementation parses the printed script into a different dialogue than the one printed"
+        if isinstance(pe, list) and isinstance(po, list) and pe and po and isinstance(pe[0], list) and isinstance(po[0], list):
+            i = first_diff(pe[0], po[0])
+            if i is not None:
+                ops = [o for o in case[10][1:]]
+                return "violation", "%s: operation %d %s: specification gives %s, implementation gave %s" % (
+                    what, i, sexp.dump(ops[i]) if i < len(ops) else "?",
+                    sexp.dump(pe[0][i]) if i < len(pe[0]) else "nothing",
+                    sexp.dump(po[0][i]) if i < len(po[0]) else "nothing")
+            return "violation", "%s: logs differ: specification %s, implementation %s" % (what, sexp.dump(pe[1:])[:300], sexp.dump(po[1:])[:300])
+        return "violation", "%s: specification gives %s, implementation gave %s" % (what, sexp.dump(pe)[:200], sexp.dump(po)[:200])
+    return oracle
+
+
+def ast_depth(stmts):
+    d = 0
+    for s in stmts:
+        t = tag(s)
+        if t == "opts":
+            d = max(d, 1 + max([ast_depth(o[2]) for o in s[1:]] + [0]))
+        elif t == "if":
+            d = max(d, 1 + max([ast_depth(c[2]) for c in s[1:]] + [0]))
+    return d
+
+
+def count_stmts(stmts, kinds):
+    for s in stmts:
+        t = tag(s)
+        kinds[t] = kinds.get(t, 0) + 1
+        if t == "opts":
+            for o in s[1:]:
+                count_stmts(o[2], kinds)
+        elif t == "if":
+            for c in s[1:]:
+                count_stmts(c[2], kinds)
+    return kinds
+
+
+def runner_features(min_depth=2, min_ops=4, need=None):
+    def feat(case):
+        nodes = case[7][1]
+        ops = case[10][1:]
+        depth = max([ast_depth(n[2]) for n in nodes] + [0])
+        kinds = {}
+        for n in nodes:
+            count_stmts(n[2], kinds)
+        nnext = sum(1 for o in ops if tag(o) == "next")
+        labels = ["nodes=%d" % len(nodes), "depth=%d" % min(depth, 5), "next_ops<=5" if nnext <= 5 else "next_ops<=15" if nnext <= 15 else "next_ops>15",
+                  "readers=%d" % (len(case[8]) - 1), "indent=%r" % case[9][1], "crlf" if case[9][2] == "\r\n" else "lf",
+                  "blank%%=%d" % case[9][3], "host-storer" if case[2][1] else "default-storer"]
+        labels += ["has:" + k for k in sorted(kinds) if k in ("jump", "opts", "if", "cmd", "call", "set", "declare")]
+        for o in ops:
+            if tag(o) != "next":
+                labels.append("op:" + tag(o))
+        nontrivial = depth >= min_depth and nnext >= min_ops and (need is None or all(kinds.get(k, 0) > 0 for k in need))
+        return (sexp.dump(nodes), sexp.dump(ops)), nontrivial, sorted(set(labels))
+    return feat
+
+
+def _del_stmt_variants(stmts):
+    """All variants of a statement list with one statement (at any depth) removed."""
+    for i in range(len(stmts)):
+        yield stmts[:i] + stmts[i + 1:]
+    for i, s in enumerate(stmts):
+        t = tag(s)
+        if t == "opts":
+            for j in range(1, len(s)):
+                o = s[j]
+                for v in _del_stmt_variants(o[2]):
+                    yield stmts[:i] + [s[:j] + [[o[0], o[1], v]] + s[j + 1:]] + stmts[i + 1:]
+                if len(s) > 2:
+                    yield stmts[:i] + [s[:j] + s[j + 1:]] + stmts[i + 1:]
+        elif t == "if":
+            for j in range(1, len(s)):
+                c = s[j]
+                for v in _del_stmt_variants(c[2]):
+                    yield stmts[:i] + [s[:j] + [[c[0], c[1], v]] + s[j + 1:]] + stmts[i + 1:]
+                if len(s) > 2:
+                    yield stmts[:i] + [s[:j] + s[j + 1:]] + stmts[i + 1:]
+
+
+def runner_shrink(case):
+    out = []
+    ops = case[10][1:]
+    # shorter operation sequences first
+    for n in (len(ops) // 2, len(ops) - 1):
+        if 0 < n < len(ops):
+            out.append(case[:10] + [[case[10][0]] + ops[:n]])
+    for i in range(len(ops)):
+        if tag(ops[i]) != "next":
+            out.append(case[:10] + [[case[10][0]] + ops[:i] + ops[i + 1:]])
+    # plain layout, one reader, one runner
+    plain = [sexp.Sym("layout"), sexp.Sym("    "), sexp.Sym("\n"), 0, 0, 0, 0, 0, 1]
+    if case[9] != plain:
+        out.append(case[:9] + [plain] + case[10:])
+    if len(case[8]) > 2:
+        out.append(case[:8] + [[case[8][0], len(case[7][1])]] + case[9:])
+    nodes = case[7][1]
+    for i in range(1, len(nodes)):
+        out.append(case[:7] + [[case[7][0], nodes[:i] + nodes[i + 1:]]] + [[case[8][0], len(nodes) - 1]] + case[9:])
+    for i, n in enumerate(nodes):
+        for v in _del_stmt_variants(n[2]):
+            out.append(case[:7] + [[case[7][0], nodes[:i] + [[n[0], n[1], v]] + nodes[i + 1:]]] + case[8:])
+            if len(out) > 200:
+                return out
+    return out
+
+
+def flow_view(o):
+    return obs_view(o, keep_tags=False, keep_attrs=False, keep_disabled=False)
+
+
+def runner_shrink_ok(orig_obs, cand_obs):
+    # do not wander from a behavioural disagreement into a printing artefact of a shrunk AST
+    return ("ast-mismatch" in cand_obs) == ("ast-mismatch" in orig_obs) and "CRASH" not in cand_obs
+
+
+FAMILIES["flow"] = {"project": runner_projection(flow_view), "features": runner_features(2, 4),
+                    "shrink": runner_shrink, "oracle": None, "shrink_ok": runner_shrink_ok}
+FAMILIES["flow"]["oracle"] = runner_oracle("flow", "dialogue flow")
+
+
+def end_projection(line):
+    """C12: what happens after the first reported end: outcomes, host log and storer log deltas."""
+    res = sexp.parse(line)
+    if tag(res) != "res" or len(res) < 3:
+        return sexp.dump(res[:2]) if isinstance(res, list) else line
+    obs = [flow_view(o) for o in res[2]]
+    return sexp.dump([obs, [[r[1], r[2]] for r in res[3]]])
+
+
+def end_oracle(case, obs, exp):
+    o = _obs_list(obs)
+    if o is None:
+        return "unknown", "the script did not load"
+    ops = case[10][1:]
+    seen_end = False
+    for i, (op, ob) in enumerate(zip(ops, o)):
+        if tag(op) != "next":
+            continue
+        if seen_end and tag(ob) != "end":
+            return "violation", "operation %d %s after the end of the dialogue returned %s" % (i, sexp.dump(op), sexp.dump(ob)[:200])
+        if tag(ob) == "end":
+            seen_end = True
+    v, d = runner_oracle("endcalls", "end of dialogue")(case, obs, exp)
+    return v, d
+
+
+FAMILIES["endcalls"] = {"project": end_projection, "features": runner_features(1, 3), "shrink": runner_shrink,
+                        "oracle": end_oracle, "shrink_ok": runner_shrink_ok}
+
+PROPERTIES["C01"] = {
+    "families": [("flow", 260, 6000)],
+    "rule": "random dialogues (1-4 nodes, options/if nested to depth 4, jumps by name and by expression, stop, "
+            "set/declare/call/commands, duplicate titles, 1-3 readers) printed under a random layout, driven along a "
+            "random valid choice path (junk arguments whenever no option group is waiting); distinct by (AST, ops); "
+            "non-trivial when the AST nests options/if to depth >= 2 and the path has >= 4 Next calls.",
+    "assumptions": ["printed text is parsed by the implementation into the generated AST (checked on every case through "
+                    "the VerifDumpDialogue hook: an AST mismatch is reported as a violation)"],
+}
+PROPERTIES["C12"] = {
+    "families": [("endcalls", 260, 6000)],
+    "rule": "dialogues biased to end early (stop inside nested option/if bodies with statements after it, natural ends "
+            "after option groups), followed by 3-6 further Next calls with arguments from {0,1,7,-1,2^40}; distinct by "
+            "(AST, ops); non-trivial when nesting depth >= 1 and >= 3 Next calls.",
+    "assumptions": [],
+}
